@@ -26,6 +26,8 @@ RULE = ("Hypothesis-generated scripts for 1-3 caller threads against one start_b
         "blocking), future.cancel(), future.result(), release of blockers; steps sequenced by a generated global turn "
         "order or free-running; the portal is left normally or with an exception (cancel_remaining) at a generated point, "
         "with calls still in flight and further calls issued after stop; generated call_soon_threadsafe latencies; "
+        "sub-cases: stop() called 1-3 times from a task inside the portal with generated cancel_remaining flags; caller "
+        "thread that is a to_thread worker of another event loop; "
         "non-trivial = two or more caller threads with calls in flight at stop, or a future cancelled while its task is "
         "parked; distinct = distinct canonical JSON")
 ASSUMPTIONS = [
